@@ -48,3 +48,4 @@ enums:
     0: none
     1: snappy
     2: gzip
+    3: lzw
